@@ -7,3 +7,7 @@ import XzVerif.Props.C06
 #print axioms Props.C06.C06_fill
 #print axioms Props.C06.C06_size_contract_write
 #print axioms Props.C06.C06_size_contract_close_and_roundtrip
+#print axioms Props.C06.C06_size_contract_write_hashtable4
+#print axioms Props.C06.C06_size_contract_write_bintree
+#print axioms Props.C06.C06_close_and_roundtrip_hashtable4
+#print axioms Props.C06.C06_close_and_roundtrip_bintree
